@@ -39,6 +39,20 @@ func (t Time) Before(u Time) bool
 func (t Time) After(u Time) bool
 func (t Time) UnixNano() int64
 func (t Time) UnixMilli() int64
+func (t Time) Add(d Duration) Time
+`,
+	"sort": `package sort
+func Search(n int, f func(int) bool) int
+`,
+	"encoding/binary": `package binary
+type littleEndian struct{}
+var LittleEndian littleEndian
+func (littleEndian) Uint16(b []byte) uint16
+func (littleEndian) Uint32(b []byte) uint32
+func (littleEndian) Uint64(b []byte) uint64
+func (littleEndian) PutUint16(b []byte, v uint16)
+func (littleEndian) PutUint32(b []byte, v uint32)
+func (littleEndian) PutUint64(b []byte, v uint64)
 `,
 	"math": `package math
 const (
